@@ -32,10 +32,22 @@
 
 #ifdef KW
 /* decode_flags on the concrete line "[<keyword KW>] f" */
-static const char *const g_kws[6] = { "glob_no_path", "glob", "dont_fragment",
-	"dont_compress", "dont_deduplicate", "nosparse" };
+#if KW == 0
+#define KWSTR "glob_no_path"
+#elif KW == 1
+#define KWSTR "glob"
+#elif KW == 2
+#define KWSTR "dont_fragment"
+#elif KW == 3
+#define KWSTR "dont_compress"
+#elif KW == 4
+#define KWSTR "dont_deduplicate"
+#else
+#define KWSTR "nosparse"
+#endif
+#define LINE_INIT "[" KWSTR "] f"
 #undef LEN
-#define LEN 24
+#define LEN (sizeof(LINE_INIT) - 1)
 #endif
 static char g_line[LEN + 2];
 static size_t g_kwlen;
@@ -137,13 +149,9 @@ void harness(void)
 	size_t i;
 
 #ifdef KW
-	memset(g_line, 0, sizeof(g_line));
-	g_kwlen = strlen(g_kws[KW]);
-	g_line[0] = '[';
-	memcpy(g_line + 1, g_kws[KW], g_kwlen);
-	g_line[1 + g_kwlen] = ']';
-	g_line[2 + g_kwlen] = ' ';
-	g_line[3 + g_kwlen] = 'f';
+	for (i = 0; i <= LEN; ++i)
+		g_line[i] = LINE_INIT[i];
+	g_kwlen = sizeof(KWSTR) - 1;
 #else
 	verif_nd_bytes(g_line, LEN, "line");
 	g_line[LEN] = '\0';
@@ -189,8 +197,11 @@ void harness(void)
 	VERIF_ASSERT(nul && g_line[LEN + 1] == 0x5a, "C07.sort.in_place");
 	VERIF_COVER(ret == 0);
 	VERIF_COVER(ret == -1);
-#if PART == 2 && LEN >= 4 && !defined(KW)
-	VERIF_COVER(ret == 0 && g_line[0] != '[' && LEN > 3 &&
-		    g_line[1] == '\0');
+#if PART == 2
+#ifndef KW
+#if LEN >= 4
+	VERIF_COVER(ret == 0 && g_line[0] != '[' && g_line[1] == '\0');
+#endif
+#endif
 #endif
 }
